@@ -610,12 +610,14 @@ def ramanEffToYang (fe : Dict) : PyR Dict := do
 def forEachIfPresent (d : Dict) (key : String) (f : Dict → PyR Dict) : PyR Dict :=
   if d.has key then forEachIn d key f else pure d
 
-def convertRamanEfficiency (doc : Dict) : PyR Dict :=
+/-- `convert_raman_efficiency` BEFORE the repair of F7 (df307dac): the legacy spelling written by
+    `convert_back_raman_efficiency` was not recognised (kept for the `…_fails_old` witness) -/
+def convertRamanEfficiencyOld (doc : Dict) : PyR Dict :=
   forEachIfPresent doc "RamanFiber" ramanEffToYang
 
-/-- proposed repair of F7, converter part: an equipment RamanFiber entry that carries the spelling
-    written by `convert_back_raman_efficiency` (`raman_coefficient {g0, frequency_offset}`) is read
-    as `raman_efficiency {cr, frequency_offset}` before the conversion -/
+/-- first step of `convert_raman_efficiency` for one entry (repair of F7): an equipment RamanFiber entry
+    that carries the spelling written by `convert_back_raman_efficiency`
+    (`raman_coefficient {g0, frequency_offset}`) is read as `raman_efficiency {cr, frequency_offset}` -/
 def ramanEffAcceptCoef (fe : Dict) : PyR Dict :=
   match fe.get? "raman_coefficient" with
   | some rcj =>
@@ -626,7 +628,8 @@ def ramanEffAcceptCoef (fe : Dict) : PyR Dict :=
     else pure fe
   | none => pure fe
 
-def convertRamanEfficiencyFixed (doc : Dict) : PyR Dict :=
+/-- `convert_raman_efficiency` -/
+def convertRamanEfficiency (doc : Dict) : PyR Dict :=
   forEachIfPresent doc "RamanFiber" (fun fe => do ramanEffToYang (← ramanEffAcceptCoef fe))
 
 /-- `[c[k] for c in l if k in c]` -/
@@ -634,8 +637,9 @@ def columnIf (k : String) (l : List J) : PyR (List J) := do
   let ds ← l.mapM asObj
   return ds.filterMap (fun d => d.get? k)
 
-/-- body of `convert_back_raman_efficiency` (current code: the legacy key written back is
-    `raman_coefficient`, without reference frequency — finding F7) -/
+/-- body of `convert_back_raman_efficiency`: the legacy key written back is `raman_coefficient`
+    (`g0` for `cr`), without reference frequency; the loader and `convert_raman_efficiency` accept
+    that spelling since df307dac -/
 def ramanEffToLegacy (fe : Dict) : PyR Dict := do
   match fe.get? "raman_efficiency" with
   | some (.arr re) =>
@@ -681,7 +685,8 @@ def rangeToLegacy (listKey dictKey : String) (e : Dict) : PyR Dict :=
     let l := J.arr [← r.get "min_value", ← r.get "max_value", ← r.get "step"]
     return (e.set listKey l).erase dictKey
 
-/-- `convert_back_delta_power_range` AS THE CODE IS: only entry 0 of `Span` and of `SI` (finding F6) -/
+/-- `convert_back_delta_power_range` BEFORE the repair of F6 (f4882f89): only entry 0 of `Span` and of
+    `SI` (kept for the `…_fails_old` witness) -/
 def backRangeFirstOnly (doc : Dict) (key listKey dictKey : String) : PyR Dict :=
   match doc.get? key with
   | none => pure doc
@@ -693,12 +698,12 @@ def backRangeFirstOnly (doc : Dict) (key listKey dictKey : String) : PyR Dict :=
       return doc.set key (.arr (J.obj first' :: l.drop 1))
     else return doc
 
-def convertBackDeltaPowerRange (doc : Dict) : PyR Dict := do
+def convertBackDeltaPowerRangeOld (doc : Dict) : PyR Dict := do
   let d ← backRangeFirstOnly doc "Span" "delta_power_range_db" "delta_power_range_dict_db"
   backRangeFirstOnly d "SI" "power_range_db" "power_range_dict_db"
 
-/-- the repaired behaviour (every entry) – what the round-trip theorem is about -/
-def convertBackDeltaPowerRangeAll (doc : Dict) : PyR Dict := do
+/-- `convert_back_delta_power_range`: every entry of `Span` and of `SI` -/
+def convertBackDeltaPowerRange (doc : Dict) : PyR Dict := do
   let d ← forEachIfPresent doc "Span" (rangeToLegacy "delta_power_range_db" "delta_power_range_dict_db")
   forEachIfPresent d "SI" (rangeToLegacy "power_range_db" "power_range_dict_db")
 
@@ -843,7 +848,7 @@ def onKey (d : Dict) (key : String) (f : Dict → PyR Dict) : PyR Dict := do
   return d.set key (.obj (← f inner))
 
 /-- the structural part of `legacy_to_yang` (everything before the final `convert_dict`);
-    `reff` is `convertRamanEfficiency` for the code as it is -/
+    `reff` is `convertRamanEfficiency` -/
 def toYangStructWith (reff : Dict → PyR Dict) (d : Dict) : PyR Dict := do
   if d.has "elements" then
     let d ← reorderRamanPumps d
@@ -902,11 +907,11 @@ def legacyToYangWith (reff : Dict → PyR Dict) (reprs : List (Nat × String)) (
   convertDict reprs 2 (.obj s)
 
 def legacyToYang := legacyToYangWith convertRamanEfficiency
-/-- with the proposed repair of F7 -/
-def legacyToYangFixed := legacyToYangWith convertRamanEfficiencyFixed
+/-- before the repair of F7 -/
+def legacyToYangOld := legacyToYangWith convertRamanEfficiencyOld
 
 /-- the structural part of `yang_to_legacy` (after `convert_empty_to_none` and `convert_back`);
-    `backRange` is `convertBackDeltaPowerRange` for the code as it is -/
+    `backRange` is `convertBackDeltaPowerRange` -/
 def toLegacyStruct (backRange : Dict → PyR Dict) (d : Dict) : PyR J := do
   let topo (d : Dict) : PyR J := do
     let d ← convertBackDegree d
@@ -945,8 +950,30 @@ def yangToLegacyWith (reff : Dict → PyR Dict) (backRange : Dict → PyR Dict) 
   toLegacyStruct backRange (← asObj j)
 
 def yangToLegacy := yangToLegacyWith convertRamanEfficiency convertBackDeltaPowerRange
-/-- the repaired converters (F6: every SI/Span entry converted back; F7: see `ramanEffAcceptCoef`) -/
-def yangToLegacyFixed := yangToLegacyWith convertRamanEfficiencyFixed convertBackDeltaPowerRangeAll
+/-- the converter before the repairs of F6 and F7 -/
+def yangToLegacyOld := yangToLegacyWith convertRamanEfficiencyOld convertBackDeltaPowerRangeOld
+
+/-! ### the Raman coefficient a library fibre entry ends up with (`json_io.Fiber.__init__`) -/
+
+/-- `json_io.Fiber.__init__` since df307dac: `raman_efficiency {cr, frequency_offset}` becomes
+    `{frequency_offset, g0 := cr, reference_frequency := default}`; the spelling written by
+    `yang_to_legacy` (`raman_coefficient {g0, frequency_offset}`) is accepted too and receives the
+    default reference frequency -/
+def fiberRaman (dfltRef : J) (entry : Dict) : Option Dict :=
+  match entry.get? "raman_efficiency" with
+  | some (.obj re) =>
+    some (((Dict.erase re "cr").set "g0" ((Dict.get? re "cr").getD .null)).set "reference_frequency" dfltRef)
+  | _ =>
+    match entry.get? "raman_coefficient" with
+    | some (.obj rc) => some (if Dict.has rc "reference_frequency" then rc else Dict.set rc "reference_frequency" dfltRef)
+    | _ => none
+
+/-- the loader before df307dac read `raman_efficiency` only -/
+def fiberRamanOld (dfltRef : J) (entry : Dict) : Option Dict :=
+  match entry.get? "raman_efficiency" with
+  | some (.obj re) =>
+    some (((Dict.erase re "cr").set "g0" ((Dict.get? re "cr").getD .null)).set "reference_frequency" dfltRef)
+  | _ => none
 
 /-! ### alias expansion of `_equipment_from_json` (json_io.py:576-611) -/
 
